@@ -12,4 +12,8 @@ for d in /verif/seeded/*/; do
     git checkout -q -- . ; git clean -fdq
   else echo "FAIL $n (does not apply)"; rc=1; fi
 done
+# the behaviour-preserving edits (negative tests) must apply to HEAD as well - a diff that does not apply tests nothing
+for f in /verif/harmless/*.diff; do
+  if git apply --check "$f" 2>/dev/null; then echo "ok   harmless/$(basename $f)"; else echo "FAIL harmless/$(basename $f) (does not apply)"; rc=1; fi
+done
 cd /; rm -rf $W; exit $rc
